@@ -727,6 +727,41 @@ var c16Witnesses = []struct{ sdl, query string }{
 	{igCorpus[1], `{ __type(name: "A") { fields(includeDeprecated: true) { name deprecationReason } } }`},
 }
 
+// c16OtherVars: the same operation text with every provided variable changed (booleans flipped,
+// type names replaced by another type of the schema).
+func c16OtherVars(r *hx.Rand, env *c16Env, cs ioCase) (ioCase, bool) {
+	if len(cs.Vars) == 0 {
+		return cs, false
+	}
+	var names []string
+	for n := range env.gs.Schema.Types {
+		names = append(names, n)
+	}
+	sort.Strings(names)
+	out := cs
+	out.Vars = map[string]interface{}{}
+	keys := make([]string, 0, len(cs.Vars))
+	for k := range cs.Vars {
+		keys = append(keys, k)
+	}
+	sort.Strings(keys)
+	changed := false
+	for _, k := range keys {
+		switch v := cs.Vars[k].(type) {
+		case bool:
+			out.Vars[k] = !v
+			changed = true
+		case string:
+			n := hx.Pick(r, names)
+			out.Vars[k] = n
+			changed = changed || n != v
+		default:
+			out.Vars[k] = v
+		}
+	}
+	return out, changed
+}
+
 func runC16(ctx *Ctx) error {
 	ctx.Rep.Rule = "case = (generated schema, introspection operation, variables) through the real gateway HTTP handler and through " +
 		"IntrospectionResolver.ResolveIntrospectionFields, compared with Model.Introspect.resolve, with Spec.select(Spec.introspect) and with Go oracles " +
@@ -791,8 +826,16 @@ func runC16(ctx *Ctx) error {
 		idx++
 		for k := 0; k < nOps; k++ {
 			r := ctx.Rand.Fork()
-			c16Check(ctx, idx, env, genOp(r, env.gs.Schema, k%2 != 0))
+			cs := genOp(r, env.gs.Schema, k%2 != 0)
+			c16Check(ctx, idx, env, cs)
 			idx++
+			// the same document again on the same gateway with other variable values: an answer must
+			// depend on the variables of THIS request only (nothing remembered per document text)
+			if cs2, ok := c16OtherVars(r, env, cs); ok {
+				ctx.Rep.Count("sequence:same document, other variables")
+				c16Check(ctx, idx, env, cs2)
+				idx++
+			}
 		}
 		for k := 0; k < nTvt; k++ {
 			c16TypeVsTypes(ctx, idx, env, genTypeVsTypes(ctx.Rand.Fork(), env.gs.Schema))
